@@ -7,7 +7,6 @@ import (
 	"errors"
 	"fmt"
 	"io"
-	"math"
 	"math/big"
 	"sort"
 	"strconv"
@@ -469,13 +468,15 @@ floatLiteral
 	{
 		// remove separator "_"s
 		lit := strings.Replace($1.Literal, "_", "", -1)
-		// NOTE: ToLower is nesessary (to split by both e and E)
-		toks := strings.Split(strings.ToLower(lit), "e")
-		val, _ := strconv.ParseFloat(toks[0], 64)
-		exp, _ := strconv.ParseFloat(toks[1], 64)
+		// NOTE: convert the whole literal at once to get the nearest float
+		// (multiplying mantissa by math.Pow(10, exp) rounds twice)
+		n, err := strconv.ParseFloat(lit, 64)
+		if err != nil {
+			yylex.Error(fmt.Sprintf("float literal `%s` cannot be represented: %s", $1.Literal, err.Error()))
+		}
 		$$ = &ast.FloatLiteral{
 			Token: $1.Literal,
-			Value: float64(val * math.Pow(10, exp)),
+			Value: n,
 			Src: yylex.(*Lexer).Source,
 		}
 	} 
